@@ -65,15 +65,18 @@ def _values(expr, db, betas):
     return [float(v) for v in expr.get_value_c(database=db, betas=betas, prepare_ids=True)]
 
 
-def _state_mismatch(real: Real, tab: Table, cfg, where: str):
-    """Compare the whole observable state of the real objects with the specification's."""
+def _state_mismatch(real: Real, tab: Table, cfg, where: str, light: bool = False):
+    """Compare the whole observable state of the real objects with the specification's.
+    light: only what can be read WITHOUT asking the central controller (asking it is itself a call that an
+    implementation may use to refresh what it remembers: on half of the paths the state is read passively)."""
     want_id = tab.id_of[tuple(cfg)]
-    got = real.cc.get_configuration().get_string_id()
-    if got != want_id:
-        return dict(what='get_configuration', where=where, got=got, want=want_id)
-    got = str(real.expr.current_configuration())
-    if got != want_id:
-        return dict(what='current_configuration', where=where, got=got, want=want_id)
+    if not light:
+        got = real.cc.get_configuration().get_string_id()
+        if got != want_id:
+            return dict(what='get_configuration', where=where, got=got, want=want_id)
+        got = str(real.expr.current_configuration())
+        if got != want_id:
+            return dict(what='current_configuration', where=where, got=got, want=want_id)
     for name, alt in tab.sel(cfg).items():
         for cat in real.catalogs.get(name, [None]):
             if cat is None:
@@ -373,7 +376,7 @@ def replay_path(st: Struct, tab: Table, path: dict, pidx: int, patch=None, value
             if last is None:
                 break
             want = last  # the order of the visit is free: the configuration left behind is the last one visited
-        bad = _state_mismatch(real, tab, want, f'after step {sidx} ({op})')
+        bad = _state_mismatch(real, tab, want, f'after step {sidx} ({op})', light=(pidx % 2 == 1 and sidx + 1 < len(path['steps'])))
         if bad:
             _mm(out, f'state:{op}:' + bad['what'], f, bad, ctx)
             # re-synchronise so that one defect is reported once per path, not at every later step
